@@ -598,6 +598,21 @@ let rec nth n0 l default =
             | [] -> default
             | _ :: t -> nth m t default)
 
+(** val last : 'a1 list -> 'a1 -> 'a1 **)
+
+let rec last l d =
+  match l with
+  | [] -> d
+  | a :: l0 -> (match l0 with
+                | [] -> a
+                | _ :: _ -> last l0 d)
+
+(** val forallb : ('a1 -> bool) -> 'a1 list -> bool **)
+
+let rec forallb f = function
+| [] -> true
+| a :: l0 -> (&&) (f a) (forallb f l0)
+
 (** val firstn : nat -> 'a1 list -> 'a1 list **)
 
 let rec firstn n0 l =
@@ -662,6 +677,21 @@ let ndigits x =
 
 let digit x i =
   nth i x.pl_digits Z0
+
+(** val digit_okb : z -> z -> bool **)
+
+let digit_okb sh d =
+  (&&) (Z.leb Z0 d) (Z.ltb d (Z.pow (Zpos (XO XH)) sh))
+
+(** val wfb : z -> pylong -> bool **)
+
+let wfb sh x =
+  (&&)
+    ((&&) (forallb (digit_okb sh) x.pl_digits)
+      (negb (Z.eqb (last x.pl_digits (Zpos XH)) Z0)))
+    (match x.pl_digits with
+     | [] -> negb x.pl_neg
+     | _ :: _ -> true)
 
 (** val joinl_c : z -> bool -> z -> z list -> z option **)
 
